@@ -179,6 +179,16 @@ def check(run):
     order2 = order1[:]
     rng.shuffle(order2)
     seq = order1 + order2 + order1[::-1]
+    # ... and a few minimal statements after each of them: whatever a statement leaves behind in a parser that
+    # survives the call shows most easily in a statement that exercises the empty alternatives of the grammar
+    probes = ["CREATE TABLE p (a)", "CREATE TABLE p (a, b)", "CREATE TABLE p (a PRIMARY KEY, b UNIQUE)", "CREATE INDEX pi ON p (a)", "CREATE UNIQUE INDEX pi ON p (a, b)", "SELECT a FROM p"]
+    seq2 = []
+    for n, s in enumerate(order1):
+        seq2.append(s)
+        seq2.append(probes[n % len(probes)])
+        if n % 7 == 0:
+            seq2 += probes
+    seq = seq + seq2
     dl = [("d%d" % n, "parse %s" % (s.encode("utf-8", "surrogatepass").hex() or "-")) for n, s in enumerate(seq)]
     _, dimpl, _ = ops.run_cmds("c16-det", dl, sides=("impl",), timeout=900)
     seen = {}
